@@ -121,7 +121,7 @@ package client
 //@ func client.(*RpcMultiplexer).NewStreamReadWriter$1
 //@   nopanic[C14.nopanic]
 //@   captures gone != nil && closable(gone)
-//@   atcall[C11.owner_signals_before_it_waits_for_the_registry_lock C13.owner_signals_before_it_waits_for_the_registry_lock C09.owner_signals_before_it_waits_for_the_registry_lock] client.(*RpcMultiplexer).unregisterHandler : ncalls("(*sync.Once).Do") == old(ncalls("(*sync.Once).Do")) + 1
+//@   atcall[C11.owner_signals_before_it_waits_for_the_registry_lock C13.owner_signals_before_it_waits_for_the_registry_lock C09.owner_signals_before_it_waits_for_the_registry_lock C02.owner_signals_before_it_waits_for_the_registry_lock] client.(*RpcMultiplexer).unregisterHandler : ncalls("(*sync.Once).Do") == old(ncalls("(*sync.Once).Do")) + 1
 //@   atcall[C11.owner_takes_no_lock_before_it_signals C07.owner_takes_no_lock_before_it_signals] (*sync.Once).Do : ncalls("lock") == old(ncalls("lock"))
 //@   ensures[C14.teardown_unregisters] !(streamId in rm.handlers)
 
@@ -139,6 +139,7 @@ package client
 //@ func client.(*RpcMultiplexer).NewStreamReadWriter$3
 //@   nopanic[C13.nopanic]
 //@   atcall[C06.stream_write_unchanged C02.write_unchanged] (types.RpcReadWriter).Write : arg2 == rpc && arg1 == ctx
+//@   atcall[C07.stream_write_waits_only_in_the_transport C11.stream_write_waits_only_in_the_transport] (types.RpcReadWriter).Write : ncalls("lock") == old(ncalls("lock"))
 //@   ensures[C02.one_write C06.one_write] ncalls("(types.RpcReadWriter).Write") == old(ncalls("(types.RpcReadWriter).Write")) + 1
 //@   ensures[C05.a_call_never_ends_the_connection C09.a_call_never_ends_the_connection] ncalls("call:client.(*RpcMultiplexer).closeError") == old(ncalls("call:client.(*RpcMultiplexer).closeError"))
 // the stream's writer also carries the reset its owner writes *before* the teardown fires the release
@@ -204,6 +205,10 @@ package client
 //@     | arg2 != nil && arg2.Id == cs.id && arg2.Header != nil && arg2.Header.Method == cs.method && arg2.Header.Source == cs.sourceAddress && arg2.Header.Destination == cs.destAddress
 //@     | && arg2.Body != nil && arg2.Body.Data == bsContent(body) && arg2.Status == nil && arg2.Trailer == nil && arg2.Reset_ == nil && arg1 == cs.ctx
 //@   atcall[C02.message_bytes] (google.golang.org/grpc/encoding.CodecV2).Marshal : arg1 == m
+//@   atcall[C02.send_checks_the_terminal_state_first C03.send_checks_the_terminal_state_first] (google.golang.org/grpc/encoding.CodecV2).Marshal :
+//@     | ncalls("call:client.(*clientStream).readErrorIfDone") == old(ncalls("call:client.(*clientStream).readErrorIfDone")) + 1 && !lastret("clientStream).readErrorIfDone").0
+//@   ensures[C02.send_after_the_end_reports_how_it_ended C03.send_after_the_end_reports_how_it_ended] ncalls("call:client.(*clientStream).readErrorIfDone") >= old(ncalls("call:client.(*clientStream).readErrorIfDone")) + 1
+//@     | && (ncalls("(google.golang.org/grpc/encoding.CodecV2).Marshal") == old(ncalls("(google.golang.org/grpc/encoding.CodecV2).Marshal")) ==> result == lastret("clientStream).readErrorIfDone").1 && ncalls("(types.RpcReadWriter).Write") == old(ncalls("(types.RpcReadWriter).Write")))
 //@   ensures[C06.message_once C02.message_once] ncalls("(types.RpcReadWriter).Write") <= old(ncalls("(types.RpcReadWriter).Write")) + 1
 //@   ensures[C11.failed_send_aborts_the_stream C14.failed_send_aborts_the_stream C07.failed_send_aborts_the_stream] result != nil && ncalls("(google.golang.org/grpc/encoding.CodecV2).Marshal") == old(ncalls("(google.golang.org/grpc/encoding.CodecV2).Marshal")) + 1
 //@     | ==> ncalls("fnfield:H.client.clientStream.teardown") == old(ncalls("fnfield:H.client.clientStream.teardown")) + 1
